@@ -35,6 +35,7 @@ def run(ctx):
     r19_3(ctx)
     r19_45(ctx)
     r19_6(ctx, counter)
+    r19_7(ctx, counter)
 
 
 def r19_1(ctx, counter):
@@ -196,3 +197,29 @@ def r19_6(ctx, counter):
         ok = bool(rel) and b.post_dominated_by(0, rel)
         ctx.verdict(ok, "R19.6", cf, "owner-share-released", b.line_at((rel[0], 10 ** 6)) if rel else cf.loc(), "ManuallyDrop::take(&mut self.%s) on every path of Drop" % counter,
                     "SharedObservable's Drop can return without releasing its share of the owner counter (it is wrapped in ManuallyDrop): observable_count stays too high for ever and the state is never closed")
+
+
+def r19_7(ctx, counter):
+    """the fields of an existing handle are never overwritten: replacing the state Arc or the (ManuallyDrop'd) owner counter of a
+    live handle changes which family it counts for without releasing its share of the old one."""
+    F = ctx.facts
+    n = 0
+    for f in F.find(crate=EY):
+        b = f.built
+        if not b:
+            continue
+        for loc, s_ in b.iter_stmts():
+            if s_["k"] != "assign" or not s_["place"]["proj"]:
+                continue
+            lf = last_field(s_["place"])
+            if lf not in (counter, "state"):
+                continue
+            base_ty = b.locals[s_["place"]["l"]]["ty"]
+            if "shared::SharedObservable<" not in base_ty and "shared::WeakObservable<" not in base_ty:
+                continue
+            n += 1
+            ctx.violated("R19.7", f, "handle-field-overwritten:%s" % lf, b.line_at(loc),
+                         "`%s` overwrites the `%s` field of an existing handle%s: the handle's share of the old family is never released (observable_count of the old family stays too high) " % (
+                             f.path, lf, " (a ManuallyDrop, so not even drop glue releases it)" if lf == counter else ""))
+    if not n:
+        ctx.holds("R19.7", None, "handle-fields-written-only-at-construction", None, "no assignment to `state` / `%s` of an existing SharedObservable or WeakObservable" % counter)
